@@ -813,3 +813,105 @@ func (s *Srv) StreamedListObjects(r Req) ListOutcome {
 	defer st.mu.Unlock()
 	return listOutcome(append([]string{}, st.items...), err)
 }
+
+// ---- batch check, expand, read ----
+
+// BatchItem is one item of a BatchCheck request.
+type BatchItem struct {
+	ID                     string
+	Object, Relation, User string
+	Ctx                    *structpb.Struct
+	Contextual             []*openfgav1.TupleKey
+}
+
+// BatchCheck runs Server.BatchCheck and returns one Outcome per correlation id present in the result.
+func (s *Srv) BatchCheck(store, model string, items []BatchItem, higher bool) (map[string]Outcome, error) {
+	req := &openfgav1.BatchCheckRequest{StoreId: store, AuthorizationModelId: model}
+	if higher {
+		req.Consistency = openfgav1.ConsistencyPreference_HIGHER_CONSISTENCY
+	}
+	for _, it := range items {
+		bi := &openfgav1.BatchCheckItem{
+			CorrelationId: it.ID,
+			TupleKey:      &openfgav1.CheckRequestTupleKey{Object: it.Object, Relation: it.Relation, User: it.User},
+			Context:       it.Ctx,
+		}
+		if len(it.Contextual) > 0 {
+			bi.ContextualTuples = &openfgav1.ContextualTupleKeys{TupleKeys: it.Contextual}
+		}
+		req.Checks = append(req.Checks, bi)
+	}
+	out := map[string]Outcome{}
+	err := Guard(func() error {
+		resp, err := s.S.BatchCheck(context.Background(), req)
+		if err != nil {
+			return err
+		}
+		for id, r := range resp.GetResult() {
+			switch v := r.GetCheckResult().(type) {
+			case *openfgav1.BatchCheckSingleResult_Allowed:
+				out[id] = Outcome{Allowed: v.Allowed}
+			case *openfgav1.BatchCheckSingleResult_Error:
+				e := status.Error(codes.Code(errCode(v.Error)), v.Error.GetMessage())
+				out[id] = outcome(false, e)
+			default:
+				out[id] = outcome(false, errors.New("empty batch result"))
+			}
+		}
+		return nil
+	})
+	return out, err
+}
+
+func errCode(e *openfgav1.CheckError) int32 {
+	switch c := e.GetCode().(type) {
+	case *openfgav1.CheckError_InputError:
+		return int32(c.InputError)
+	case *openfgav1.CheckError_InternalError:
+		return int32(c.InternalError)
+	}
+	return int32(codes.Unknown)
+}
+
+// Expand runs Server.Expand.
+func (s *Srv) Expand(r Req) (*openfgav1.UsersetTree, error) {
+	var tree *openfgav1.UsersetTree
+	err := Guard(func() error {
+		resp, err := s.S.Expand(context.Background(), &openfgav1.ExpandRequest{
+			StoreId: r.Store, AuthorizationModelId: r.Model,
+			TupleKey:         &openfgav1.ExpandRequestTupleKey{Object: r.Object, Relation: r.Relation},
+			ContextualTuples: r.contextual(), Consistency: r.consistency(),
+		})
+		if err != nil {
+			return err
+		}
+		tree = resp.GetTree()
+		return nil
+	})
+	return tree, err
+}
+
+// ReadAll pages through Server.Read and returns every tuple key of the store.
+func (s *Srv) ReadAll(store string) ([]*openfgav1.TupleKey, error) {
+	var out []*openfgav1.TupleKey
+	token := ""
+	for i := 0; i < 10000; i++ {
+		var resp *openfgav1.ReadResponse
+		err := Guard(func() error {
+			var err error
+			resp, err = s.S.Read(context.Background(), &openfgav1.ReadRequest{StoreId: store, ContinuationToken: token})
+			return err
+		})
+		if err != nil {
+			return nil, err
+		}
+		for _, t := range resp.GetTuples() {
+			out = append(out, t.GetKey())
+		}
+		token = resp.GetContinuationToken()
+		if token == "" {
+			return out, nil
+		}
+	}
+	return nil, errors.New("ReadAll: too many pages")
+}
